@@ -68,7 +68,7 @@ class SchedWorld:
         self.zones = [z for z in ZONES_ALL if z in sizes]
         self.gwy = self.w.add_gateway(config={"disable_discovery": True, "enforce_known_list": False}, **_schema(self.zones))
         self.tcs = self.gwy.tcs
-        self.ctl = S.SchedCtl({z: (None if sizes[z] == 0 else S.make_schedule(z, 0, sizes[z])) for z in self.zones})
+        self.ctl = S.SchedCtl({z: (None if sizes[z] == 0 else S.schedule_for(z, 0, sizes[z])) for z in self.zones})
         self.nver = {z: 0 for z in self.zones}  # version tags handed out so far (for make_schedule)
         self.w.on_write = self._on_write
         self.faults = True
@@ -97,7 +97,7 @@ class SchedWorld:
 
     def do_bump(self, zone: str, size: int) -> None:
         self.nver[zone] += 1
-        self.ctl.bump(zone, S.make_schedule(zone, self.nver[zone], size))
+        self.ctl.bump(zone, S.schedule_for(zone, self.nver[zone], size))
         self.verlog.append((self.tick(), zone, self.ctl.cur[zone]))
 
     # ------------------------------------------------------------------------------------------ environment
@@ -110,7 +110,7 @@ class SchedWorld:
                 if self.sizes[z] == 0:
                     continue
                 acts.append((("bump", z, self.sizes[z]), 1))
-                if "bumpsize" in self.dev:
+                if "bumpsize" in self.dev and not isinstance(self.sizes[z], str):
                     acts.append((("bump", z, 1 + self.sizes[z] % 3), 1))
         if "overhear" in self.dev:
             for z in self.zones:
@@ -187,7 +187,7 @@ class SchedWorld:
                 coro = zone.get_schedule(**kw)
         else:
             self.nver[c["zone"]] += 1
-            rec["written"] = S.make_schedule(c["zone"], 50 + self.nver[c["zone"]] + 7 * i, c.get("size", self.sizes[c["zone"]] or 1))
+            rec["written"] = S.schedule_for(c["zone"], 50 + self.nver[c["zone"]] + 7 * i, c.get("size", self.sizes[c["zone"]] or 1))
             coro = zone.set_schedule(rec["written"])
 
         async def caller() -> None:
@@ -474,6 +474,14 @@ def scenarios(quick: bool) -> list[tuple[dict, int]]:
             for age in (0, 200):
                 sc.append(({"callers": [get("01", force_io=force)], "sizes": sizes, "warm": ("01", "02"), "pre_bump": pre, "age": age, "dev": full}, 1 if quick else 2))
     sc.append(({"callers": [get("01", force_io=True)], "sizes": {"01": 2, "02": 2}, "warm": ("01", "02"), "pre_bump": ("01",), "dev": full + ("bumpsize",)}, 2))
+    # 3b. versions that differ only in their tail: the first fragment is the same before and after the change
+    for kind in ("T2", "T3"):
+        tz = {"01": kind, "02": 1}
+        for force in (False, True):
+            sc.append(({"callers": [get("01", force_io=force)], "sizes": tz, "warm": ("01",), "pre_bump": ("01",), "dev": full}, 1 if quick else 2))
+            sc.append(({"callers": [get("01", force_io=force)], "sizes": tz, "warm": ("01",), "pre_bump": ("01",), "age": 200, "dev": ("fate",)}, 1))
+        sc.append(({"callers": [get("01", force_io=True)], "sizes": tz, "dev": full}, 2))
+        sc.append(({"callers": [put("01", size=kind)], "sizes": tz, "warm": ("01",), "dev": full}, 1))
     # 4. writes
     sc.append(({"callers": [put("01", size=2)], "sizes": sizes, "dev": full}, 2))
     sc.append(({"callers": [put("HW", size=2)], "sizes": sizes, "dev": full}, 1 if quick else 2))
